@@ -527,14 +527,16 @@ def lp_hardening(ctx, lps, outs, thorough):
             ctx.fail(kind, what + " (%s)" % label, dict(lp_input(lps[i]), dress=label), out, None)
 
     # 1. dtype / layout / container of every array argument (all together, and one argument at a time)
+    # LPs whose canonical answer has a non-integer coordinate (an integer-typed output/work array would truncate it)
+    frac_pool = [i for i in pool if outs[i][4] == 0 and any(v != int(v) for v in outs[i][0] + outs[i][1])] or pool
     for kind in ARRAY_DRESS:
-        for i in rng.sample(pool, per):
+        for i in rng.sample(frac_pool, min(per, len(frac_pool))) + rng.sample(pool, per):
             a = lp_arrays(lps[i])
             expect_same(i, call(i, {k: dress_array(v, kind) for k, v in a.items()}, "dress:all-arrays:" + kind), "all arrays " + kind)
         # one argument at a time: every (argument, kind) pair in the thorough tier, two random arguments per kind in the quick
         # tier (each pair is a separate numba specialisation to compile)
         for arg in (("c", "A_ub", "b_ub", "A_eq", "b_eq") if thorough else rng.sample(["c", "A_ub", "b_ub", "A_eq", "b_eq"], 1)):
-            i = rng.choice(pool)
+            i = rng.choice(frac_pool)
             expect_same(i, call(i, {arg: dress_array(lp_arrays(lps[i])[arg], kind)}, "dress:%s:%s" % (arg, kind)), "%s %s" % (arg, kind))
     # 1./4. max_iter forms (canonical: Python int 1000)
     forms = [("python-int", 1000), ("np.int64", np.int64(1000)), ("np.int32", np.int32(1000)), ("np.intp", np.intp(1000))]
